@@ -15,6 +15,10 @@ OpsC09 ==
 \* start-up creates the tables in this order (the ORM's metadata order; the first one is the base table)
 TablesC09 == <<"managed_objects", "crypto_objects", "keys", "symmetric_keys", "public_keys", "private_keys", "managed_object_names",
                "opaque_objects">>
+\* the start-up fragment proved correct without bounds in Startup.tla / tlaps/StartupProof.tla is a projection of this machine:
+\* every step of Durability is a step of StartupProof (or leaves its three variables alone)
+SP == INSTANCE Startup WITH TableSet <- TableSet
+RefinesStartup == SP!Spec
 \* an opaque object has no row in crypto_objects
 OpsC09b == [create |-> OpsC09.create, activate |-> OpsC09.activate,
             opaque |-> <<<<"managed_objects", "o1">>, <<"opaque_objects", "o1">>>>]
